@@ -125,6 +125,11 @@ def statement_slice(relpath, qualname, start_pat, end_pat=None, include_end=Fals
     body = si = None
     for b in blocks:
         texts = [ast.unparse(x) for x in b]
+        if start_pat is None:
+            # from the first (non-docstring) statement of the function body
+            si = 1 if (b and isinstance(b[0], ast.Expr) and isinstance(b[0].value, ast.Constant)) else 0
+            body = b
+            break
         si = next((i for i, t in enumerate(texts) if start_pat in t.split('\n')[0]), None)
         if si is not None:
             body = b
@@ -133,7 +138,7 @@ def statement_slice(relpath, qualname, start_pat, end_pat=None, include_end=Fals
         raise AnchorLost("anchor lost: slice start %r in %s" % (start_pat, qualname))
     ei = len(body)
     if end_pat is not None:
-        ei = next((i for i in range(si + 1, len(body)) if end_pat in texts[i].split('\n')[0]), None)
+        ei = next((i for i in range(si + 1, len(body)) if end_pat in texts[i]), None)
         if ei is None:
             raise AnchorLost("anchor lost: slice end %r in %s" % (end_pat, qualname))
         if include_end:
